@@ -522,6 +522,76 @@ def bb_jump():
     return O.make(gen, check, 'c02.bbnoh.jump')
 
 
+def bb_eos_stiff_curvilinear():
+    """FINDING (C03): stiffened gas in cylindrical / spherical symmetry: ahead of the shock the solver returns
+    pressure p0 = 0 with density rho0 (1 - u0 t/r)^m and sie = e(rho0, 0), which is not on the EOS surface"""
+    def gen(rng):
+        c = dict(gamma=rng.choice([5. / 3., rng.uniform(1.2, 2.5)]), c_s=rng.choice([math.sqrt(5. / 3.), rng.uniform(0.5, 2.0)]),
+                 rho_inf=1.0)
+        ic = dict(density=1.0, velocity=-1.0, pressure=0.0, symmetry=rng.choice([1, 2]))
+        return dict(eos='Stiff', consts=c, ic=ic, pts=[rng.uniform(4.0, 8.0) for _ in range(3)], t=rng.uniform(0.3, 1.0))
+
+    def check(c):
+        eos, s = _bb_solver('Stiff', c['consts'], c['ic'], [30.0 if c['ic']['symmetry'] == 2 else 8.0, 0.6, 0.4])
+        try:
+            with np.errstate(all='ignore'):
+                sol = s(np.array(c['pts'], dtype=float), c['t'])
+        except Exception:
+            return None
+        if not float(s.shock_speed) > 0:
+            return None
+        for i, r in enumerate(c['pts']):
+            if r < float(s.shock_speed) * c['t']:
+                continue
+            p, rho, e = float(sol['pressure'][i]), float(sol['density'][i]), float(sol['specific_internal_energy'][i])
+            q = float(eos.P(rho, e))
+            if abs(p - q) > 1e-9 * max(abs(p), abs(q), 1e-6):
+                return dict(site='NohBlackBoxEos(stiffened_gas_eos):pressure=eos.P(density,sie):unshocked',
+                            detail='symmetry %d r=%r t=%r: returned pressure %r, density %r, sie %r, eos.P(density, sie) = %r'
+                                   % (c['ic']['symmetry'], r, c['t'], p, rho, e, q))
+        return None
+    return O.make(gen, check, 'c03.bbnoh.stiff_curvilinear')
+
+
+def bb_initial_state():
+    """FINDING (C02): the jump conditions are solved for `initial_conditions`, the unshocked state is assembled from the
+    solver attributes rho0/u0/p0 (defaults 1, -1, 0): with initial_conditions alone the returned fields violate
+    Rankine-Hugoniot at the returned shock"""
+    def gen(rng):
+        g = rng.choice([5. / 3., 1.4, rng.uniform(1.2, 2.5)])
+        return dict(gamma=g, ic=dict(density=rng.choice([2.0, rng.uniform(1.5, 3.0)]), velocity=-rng.choice([1.0, rng.uniform(0.5, 2.0)]),
+                                     pressure=0.0), cls=rng.choice(['PlanarNohBlackBox', 'CylindricalNohBlackBox', 'SphericalNohBlackBox']),
+                    t=rng.uniform(0.3, 1.0))
+
+    def check(c):
+        sym = {'PlanarNohBlackBox': 0, 'CylindricalNohBlackBox': 1, 'SphericalNohBlackBox': 2}[c['cls']]
+        ic = dict(c['ic'])
+        s = getattr(BB, c['cls'])(L.ideal_gas_eos(c['gamma']), ic)
+        s.solver = NS.newton_solver()
+        full = dict(ic)
+        full['symmetry'] = sym
+        s.set_new_solver_initial_guess(ideal_solution(c['gamma'], full))
+        try:
+            with np.errstate(all='ignore'):
+                s.solve_jump_conditions()
+                D, t = float(s.shock_speed), c['t']
+                xs = D * t
+                sol = s(np.array([xs * (1 - 1e-9), xs * (1 + 1e-9)]), t)
+        except Exception:
+            return None
+        if not D > 0:
+            return None
+        a = [float(sol[k][0]) for k in ('density', 'velocity', 'pressure', 'specific_internal_energy')]
+        b = [float(sol[k][1]) for k in ('density', 'velocity', 'pressure', 'specific_internal_energy')]
+        ma, mb = a[0] * (a[1] - D), b[0] * (b[1] - D)
+        if abs(ma - mb) > 1e-5 * max(abs(ma), abs(mb)):
+            return dict(site='NohBlackBoxEos:jump:initial_conditions_ignored',
+                        detail='%s(ideal_gas_eos(%r), %r): behind %r ahead %r D=%r: mass flux %r vs %r'
+                               % (c['cls'], c['gamma'], c['ic'], a, b, D, ma, mb))
+        return None
+    return O.make(gen, check, 'c02.bbnoh.initial_state')
+
+
 def residual_vs_jump():
     """C02: |F| small  <=>  jump defects small, on random states (all four residual classes, their own EOS)"""
     def gen(rng):
@@ -676,7 +746,7 @@ def eos_twin(model):
 
     def gen(rng, deep):
         cases = []
-        for i in range(200 if deep else 24):
+        for i in range(240 if deep else 40):
             c = sample_consts(short, rng)
             rho, P, e = sample_state(short, c, rng)
             if i % 8 == 0:
@@ -735,7 +805,7 @@ def residual_twin(model):
 
     def gen(rng, deep):
         cases = []
-        for i in range(120 if deep else 16):
+        for i in range(160 if deep else 24):
             if info['eos'] == 'ideal':
                 c = sample_residual_case(res, rng, ['Ideal'])
             else:
@@ -812,7 +882,7 @@ def bb_tie(model, short):
     the twin being fed the solution the real Newton iteration returned"""
     def gen(rng, deep):
         cases = []
-        for i in range(80 if deep else 10):
+        for i in range(80 if deep else 15):
             c = _bb_case(rng, [short])
             out = _bb_run(c)
             if out is None:
@@ -832,7 +902,7 @@ def newton_tie(rng, deep):
     """hand model EPV.Model.Newton (ideal-gas pressure residual) vs newton_solver.solve on the real classes:
     outcome (converged / IterationError / exception class), iteration count, solution"""
     cases = []
-    for i in range(150 if deep else 30):
+    for i in range(300 if deep else 60):
         g = rng.choice([5. / 3., 1.4, rng.uniform(1.1, 3.0)])
         m = rng.choice([0, 1, 2])
         ic = dict(density=rng.uniform(0.5, 2.0), velocity=-rng.uniform(0.3, 2.0), symmetry=m,
